@@ -386,5 +386,5 @@ def strategy():
 
 
 def campaign(col, tier, seed, shard, nshards):
-    n = 2400 if tier == "quick" else 64000
+    n = 2400 if tier == "quick" else 320000
     hyp_campaign(col, strategy(), run_case, max(n // nshards, 100), seed * 100 + shard)
